@@ -105,6 +105,7 @@ func main() {
 	seed := flag.Int64("seed", 1, "")
 	tier := flag.String("tier", "quick", "")
 	out := flag.String("out", "config.ndjson", "")
+	shippedPath := flag.String("shipped", "", "the repository's own config.yaml")
 	flag.Parse()
 	r := ev.Rng(*seed, "config")
 	w := ev.Create(*out)
@@ -113,9 +114,45 @@ func main() {
 	if *tier == "thorough" {
 		n = 5000
 	}
+	shipped := []byte{}
+	if *shippedPath != "" {
+		shipped, _ = os.ReadFile(*shippedPath)
+	}
 	dir, _ := os.MkdirTemp("", "cfg")
 	defer os.RemoveAll(dir)
 	os.Chdir(dir)
+	load := func(id interface{}, assignS map[string][]int, assignI map[string]int64) {
+		var c stgutg.Conf
+		p := ev.Catch(func() { c.GetConfiguration() })
+		gotS := map[string][]int{}
+		gotI := map[string]int64{}
+		cv := reflect.ValueOf(c.Configuration)
+		ct := cv.Type()
+		for f := 0; f < ct.NumField(); f++ {
+			tag := ct.Field(f).Tag.Get("yaml")
+			switch cv.Field(f).Kind() {
+			case reflect.String:
+				gotS[tag] = ev.Ints([]byte(cv.Field(f).String()))
+			case reflect.Int, reflect.Int32, reflect.Int64:
+				gotI[tag] = cv.Field(f).Int()
+			case reflect.Uint64:
+				gotI[tag] = int64(cv.Field(f).Uint())
+			}
+		}
+		w.Emit(ev.M{"ev": "Config", "id": id, "assignS": assignS, "assignI": assignI, "gotS": gotS, "gotI": gotI, "panic": p != ""})
+	}
+	if len(shipped) > 0 {
+		// the configuration file shipped with the repository (plain scalars, comments behind values, comment lines between keys) must load to
+		// the values its README documents
+		os.WriteFile("config.yaml", shipped, 0644)
+		S := func(x string) []int { return ev.Ints([]byte(x)) }
+		load("shipped", map[string][]int{"amf_ngap_ip": S("192.168.61.4"), "gnb_gtp_ip": S("192.168.61.3"), "stg_ngap_ip": S("192.168.61.3"),
+			"initial_imsi": S("001010000000001"), "mcc": S("001"), "mnc": S("01"), "gnb_id": {0, 1, 2}, "gnb_name": S("open5gs"),
+			"k": S("465B5CE8B199B49FAA5F0A2EE238A6BC"), "opc": S("E8ED289DEBA952E4283B54E88E6183CA"), "op": S("E8ED289DEBA952E4283B54E88E6183CA"),
+			"sd": S("010203"), "downlink_iface": S("enp0s8"), "uplink_iface": S("enp0s9")},
+			map[string]int64{"amf_ngap_port": 38412, "stg_ngap_port": 9487, "gnb_bitlength": 24, "sst": 1, "ue_number": 1, "ue_registration": 10,
+				"ue_pdu": 10, "ue_service": 10, "ue_pdu_release": 10, "ue_deregistration": 10})
+	}
 	for i := 0; i < n; i++ {
 		assignS := map[string][]int{}
 		assignI := map[string]int64{}
